@@ -205,6 +205,25 @@ def _pool_files(kw):
     return args
 
 
+def _input_in_premise(rustc, d, req):
+    """The property's premise for the real host: rustc's own parser accepts the item (syn is more
+    liberal, e.g. `dyn* Tr`, `builtin # ..` in type position). Feature-gated syntax counts as
+    parsed. None-delimited groups are dissolved for this question."""
+    item = req["item"].replace("__ng (", "(").replace("__ng(", "(")
+    src = os.path.join(d, "premise.%d.rs" % (abs(hash(item)) % 10**9))
+    open(src, "w").write("#![allow(warnings)]\n#[cfg(any())]\nmod i {\n" + item + "\n}\n")
+    try:
+        r = subprocess.run([rustc, "--edition", "2021", "--crate-type", "lib", "--emit=metadata", "--out-dir", d, src],
+                           env={"PATH": "/usr/bin:/bin"}, capture_output=True, text=True, timeout=60)
+    except subprocess.TimeoutExpired:
+        return True
+    finally:
+        pass
+    errs = [l for l in r.stderr.splitlines() if l.startswith("error") and not l.startswith("error[E0658]")
+            and "aborting due to" not in l]
+    return not errs
+
+
 def _chunks_for(kw, n_inputs, pool_stride):
     """rustc's cost per generated crate is strongly super-linear in the number of modules (207
     modules that take <= 1 s each took > 400 s together): keep every crate at about 60 modules."""
@@ -240,6 +259,7 @@ def engine_r_t(kw, n_inputs, chunks, pool_stride=1):
         errs = list(ex.map(lambda f: _rustc_metadata(rustc, so, f, d, timeout=60, partial=True), files))
     cut_off = sum(1 for e in errs if isinstance(e, _Partial))
     inconclusive = 0
+    outside_premise = []
     for f, err in zip(files, errs):
         src_lines = open(f).read().splitlines()
         index = {e["module"]: e for e in json.load(open(f[:-3] + ".index.json"))}
@@ -280,6 +300,9 @@ def engine_r_t(kw, n_inputs, chunks, pool_stride=1):
                         raise HarnessError(f"engine R: cannot attribute diagnostic to a module:\n{err[m.start():m.start() + 400]}")
                     req = ent["req"]
                     disp = f"#[derive(Ex)] {req['item']}"
+                    if not _input_in_premise(rustc, d, req):
+                        outside_premise.append(disp[:200])
+                        continue
                     cls = "unparsable derive output in the real host (rustc + shipped dylib): " + re.sub(r"`[^`]*`", "`_`", why)
                     p = os.path.join(kw["replays"], "C16-real-unparsable-" + hashlib.sha1(disp.encode()).hexdigest()[:12] + ".json")
                     json.dump({"property": "C16", "class": cls, "kind": kind, "engine": "R", "detail": why, "root_seed": seed,
@@ -322,6 +345,7 @@ def engine_r_t(kw, n_inputs, chunks, pool_stride=1):
     shutil.rmtree(d, ignore_errors=True)
     return {"modules_compiled": modules, "rustc_processes": len(files), "wall_s": round(time.time() - t0, 1),
             "crates_cut_off_after_expansion": cut_off, "crates_inconclusive": inconclusive,
+            "unparsable_but_input_outside_premise": len(outside_premise), "examples_outside_premise": outside_premise[:3],
             "dylib": os.path.basename(so)}, list(best.values()), modules
 
 
@@ -532,6 +556,8 @@ def engine_p(kw, dump_dir, per_file=800):
         inp = (f"#[derive_ex({e['attr']})]\n{e['item']}" if e["mode"] == "attr" else f"#[derive(Ex)]\n{e['item']}")
         return inp, e["out"]
 
+    gated_total = []
+
     def check_chunk(ci):
         """Returns (bad_inputs, bad_outputs) as lists of (entry, first error line)."""
         live = list(range(len(chunks[ci])))
@@ -560,13 +586,26 @@ def engine_p(kw, dump_dir, per_file=800):
             if r.returncode == 0:
                 return bad_in, bad_out
             hits = {}
+            gated = set()
             for m in ERR_LOC_RE.finditer(r.stderr):
+                # E0658: the syntax parsed, it is only feature-gated (`yield`, `become`, `builtin #`,
+                # closure binders ... written by the user inside a helper value) - not ill-formed
+                if r.stderr.startswith("error[E0658]", m.start()):
+                    g = owner.get(int(m.group(1)))
+                    if g:
+                        gated.add(g)
+                    continue
                 o = owner.get(int(m.group(1)))
                 if o and o not in hits:
                     hits[o] = r.stderr[m.start():m.start() + 300].splitlines()[0]
+            gated_total.extend(gated)
+            if not hits and gated:
+                # only feature gates left: drop those entries and parse the rest once more
+                live = [k for k in live if ("i", k) not in gated and ("o", k) not in gated]
+                continue
             if not hits:
                 raise HarnessError(f"engine P: rustc failed on {f} without an attributable error:\n{r.stderr[:1500]}")
-            drop = set()
+            drop = set(k for (_, k) in gated)
             for (tag, k), msg in hits.items():
                 (bad_in if tag == "i" else bad_out).append((chunks[ci][k], msg))
                 drop.add(k)
@@ -652,6 +691,7 @@ def engine_p(kw, dump_dir, per_file=800):
                         "input": disp, "detail": f"{msg} | attribute: {a}", "known": None})
     shutil.rmtree(d, ignore_errors=True)
     info = {"pairs_parsed": len(entries), "rustc_files": len(chunks), "builtin_attributes_probed": len(attrs),
+            "texts_dropped_for_feature_gated_syntax": len(gated_total),
             "builtin_attributes_rejected": len(bad_attrs),
             "inputs_rustc_rejects_but_syn_accepts": len(bad_in),
             "examples_outside_premise": [(f"#[derive_ex({e['attr']})] {e['item']}"[:200], m) for e, m in bad_in[:5]],
